@@ -1,7 +1,7 @@
 (* C08 property theorems (verified checker): the critical-path graph is a forward-in-time DAG with typed, non-negative edges. *)
 From HTA.lib Require Import Base Dag.
-From HTA.model Require Import C08_Model.
-From HTA.proof Require Import C08_Proofs.
+From HTA.model Require Import C08_Model C08_Host.
+From HTA.proof Require Import C08_Proofs C08_HostProofs.
 Open Scope Z_scope.
 
 Theorem C08_edges_forward_nonneg : forall zw clipped N E e, edge_ok zw clipped N E e = true ->
@@ -35,6 +35,22 @@ Theorem C08_acyclic : forall E order p,
   rank_okb (map to_edge E) (rank_of 1 order) = true -> is_path (map to_edge E) p -> path_end (path_start p) p <> path_start p.
 Proof. exact check_acyclic. Qed.
 Print Assumptions C08_acyclic.
+
+(* host side, by proof about the builder's state machine (not a checker): for EVERY depth-first traversal of properly nested
+   events in time order, of any depth, with any mix of events that have graph nodes and events that have none, every edge the
+   enter / exit callbacks emit points forward in time and weighs the time difference, or zero for a dependency or the closing
+   edge of a blocking call *)
+Theorem C08_host_edges_forward_nonneg : forall tab acts t0,
+  wf_actions tab [] [] t0 acts = true -> Forall (forward_nonneg tab) (host_edges_of tab acts).
+Proof. exact host_forward_nonneg. Qed.
+Print Assumptions C08_host_edges_forward_nonneg.
+
+(* non-vacuity of the host theorem: outer[0,100]{ annotation[10,30]{ b[12,20] } c[50,60] }, the annotation has no nodes *)
+Example C08_host_nonvacuous :
+  encode_host [mkH 0 0 100 true false (-1); mkH 1 10 30 false false 0; mkH 2 12 20 true false 1; mkH 3 50 60 true false 0]
+              [Enter 0; Enter 1; Enter 2; Exit 2; Exit 1; Enter 3; Exit 3; Exit 0] 0 =
+  (true, [[0; 1; 2; 1; 12; 0; 0]; [2; 0; 3; 1; 30; 0; 0]; [2; 1; 2; 0; 8; 0; 2]; [3; 0; 0; 0; 40; 0; 0]; [3; 1; 3; 0; 10; 0; 3]]).
+Proof. vm_compute. reflexivity. Qed.
 
 (* non-vacuity: launch call [0,2) launches kernel [5,9); a second kernel [9,12) on the stream; sync call [10,14) waits *)
 Definition cl08 : list ev :=
